@@ -105,8 +105,8 @@ Print Assumptions C04_sufficient_refuted.
     MISSING for the full statement - and FALSE as it stands, see [C04_instantiations_stay_cf_refuted]:
     parameters under applications of generic definitions / prelude generics (nested parameter
     frames), Box / VecDeque, compact-attribute fields, fields without recorded type names. *)
-From V Require Import Model.Program Model.ProgramTeq Model.ProgramExamples Model.Settings Model.Generate Model.Shape
-  Proofs.TeqComplete Proofs.ProgramExamples.
+From V Require Import Model.Program Model.ProgramSkel Model.ProgramTeq Model.ProgramExamples Model.Settings Model.Generate Model.Shape
+  Proofs.KeepFirst Proofs.TeqComplete Proofs.ProgramExamples.
 
 Theorem C04_instantiations_stay_partial :
   forall defs L r,
@@ -119,6 +119,47 @@ Theorem C04_instantiations_stay_partial :
   types_equal_res r id1 id2 = Ok true.
 Proof. exact teq_instantiations_labels. Qed.
 Print Assumptions C04_instantiations_stay_partial.
+
+(** ... for whole registries: a program-derived registry all of whose definitions are in the
+    fragment (and do not sit at the path of a bit-order marker), with pairwise distinct definition
+    paths and coincidence-free interned instantiations, is left UNTOUCHED by [ensure_unique]:
+    every path family forms one group ("instantiations of one generic definition still share one
+    path", here: nothing is renamed at all) *)
+Theorem C04_program_untouched_partial :
+  forall defs L r,
+  RegistryOf defs L r -> ids_consistent r = true ->
+  (forall sd, In sd defs -> teq_program_okb sd = true /\ forall lsb, sd_path sd <> order_path_of lsb) ->
+  (forall d1 d2 sd1 sd2,
+     nth_error defs d1 = Some sd1 -> nth_error defs d2 = Some sd2 -> sd_path sd1 = sd_path sd2 -> d1 = d2) ->
+  (forall id d args sd,
+     L id = Some (SApp d args) -> nth_error defs d = Some sd ->
+     instantiation_cf defs sd args = true /\ map canon args = args) ->
+  ensure_unique r = Ok r.
+Proof. exact program_dedup_untouched. Qed.
+Print Assumptions C04_program_untouched_partial.
+
+(** ... and generation does not fail with DuplicateTypePath on it: every comparison the loop
+    performs ([comparisons], C03_keep_first_or_error) answers "equal"; hence generation succeeds
+    whenever nothing else fails ([all_ok]: every item-eligible entry yields an IR and a lexical
+    module path).  This is the [P] "generation succeeds on such registries" of C05 on the fragment *)
+Theorem C04_program_no_duplicate_path_partial :
+  forall defs L r s,
+  RegistryOf defs L r -> ids_consistent r = true ->
+  (forall sd, In sd defs -> teq_program_okb sd = true /\ forall lsb, sd_path sd <> order_path_of lsb) ->
+  (forall d1 d2 sd1 sd2,
+     nth_error defs d1 = Some sd1 -> nth_error defs d2 = Some sd2 -> sd_path sd1 = sd_path sd2 -> d1 = d2) ->
+  (forall id d args sd,
+     L id = Some (SApp d args) -> nth_error defs d = Some sd ->
+     instantiation_cf defs sd args = true /\ map canon args = args) ->
+  Forall (fun c : cmp => types_equal r (fst (fst c)) (snd (fst c)) = Ok true) (comparisons r s) /\
+  forall flat, flatten (s_dreg s) r = Ok flat -> all_ok r s flat r ->
+               exists m, generate r s (types_equal r) = Ok m.
+Proof.
+  intros defs L r s HR Hids Hdefs Hpaths Hinst.
+  exact (conj (program_comparisons_equal defs L r s HR Hids Hdefs Hpaths Hinst)
+              (program_generates defs L r s HR Hids Hdefs Hpaths Hinst)).
+Qed.
+Print Assumptions C04_program_no_duplicate_path_partial.
 
 (** non-vacuity: [a::Pt<T> { x: T, ys: Vec<T>, p: (T, u8), o: Option<u32> }] at [u16] and [bool] *)
 Theorem C04_instantiations_stay_example :
